@@ -33,6 +33,14 @@ CHECKS = {
    text="Seeded sampling of compatible configuration pairs (version mode, authentication mode, client-auth policy, EMS policies, suite/curve lists in independent orders, CID generators, SRTP/MKI, ALPN, MTU, hello-verify, session stores with resumption) crossed with lossy/duplicating/reordering delivery of the handshake; whenever both sides report success their complete session views are compared through the public API, a read-only accessor for version and CIDs, and the wire, and data must flow both ways.",
    note="Agreement is asserted only when both sides succeed (completion is C02's and C11's business). For resumed connections an empty peer chain is accepted: an abbreviated handshake presents no certificate.",
    technique="deterministic simulation: seeded configuration-pair and delivery-schedule sampling with a cross-endpoint agreement oracle"),
+ "C11": dict(level="exploration", design="§5 C11",
+   text="Seeded sampling of arbitrary option-set pairs, including pairs disjoint in exactly one dimension and two-connection histories whose second connection changes policy over shared session stores; a 150-line policy model (set membership and highest common version only) decides whether completion is allowed and, on completion, every negotiated value is read back from both endpoints and from the wire (hellos, ServerKeyExchange curve, key_share group) and checked against both configurations.",
+   note="SRTP/ALPN lists without overlap may legitimately end in failure or in 'nothing selected'; only an out-of-list value is a violation. Signature schemes are not varied yet. 'Fails with an alert' is asserted of the wire (some fatal alert emitted), never of a receiver that may not have got it.",
+   technique="deterministic simulation: seeded configuration-pair sampling against an executable policy model, wire-level read-back"),
+ "C17": dict(level="exploration", design="§5 C17",
+   text="Emission timestamps on the virtual clock (tolerance zero) are compared with the timer law from the first transmission of each endpoint's current flight, through 16 virtual minutes of silence, after a cut-heal-cut sequence that exercises the reset rule, and under an adversary that re-delivers already-received flights with fresh record numbers or garbage; plus never-on-timer rules for cookie requests and finished DTLS 1.2 endpoints and a linear storm bound.",
+   note="The exact law is only asserted where the statement conditions it: nothing (or, for DTLS 1.2, only stale input) delivered since the flight's first transmission. DTLS 1.3 under stale input is held to the storm bound only (it legitimately answers retransmissions at once).",
+   technique="deterministic simulation: virtual-clock timing oracle under partitions and stale-flight injection"),
 }
 
 NOT_YET = {}
